@@ -433,6 +433,12 @@ class PPO(RLAlgorithm):
                 batch_values = batch_values.squeeze()
 
                 if len(minibatch_idxs) > 1:
+                    # squeeze() removed the action dimension of one-dimensional Box actions
+                    if isinstance(
+                        self.action_space, spaces.Box
+                    ) and self.action_space.shape == (1,):
+                        batch_actions = batch_actions.unsqueeze(1)
+
                     log_prob, entropy, value = self.evaluate_actions(
                         obs=batch_states, actions=batch_actions
                     )
